@@ -16,7 +16,7 @@ MEM_LIMIT = 24 << 30
 class Job:
     def __init__(self, name, cfile, entry, route='LF', target=None, source=None, defines=(), enforce=None,
                  replace=(), loops=False, unwind=None, flags=(), checks=None, timeout=300, bounded=False,
-                 bound_text=None, inputs=(), nloops=None, solver=None, must_have=(), twin=True):
+                 bound_text=None, inputs=(), nloops=None, solver=None, must_have=(), twin=True, object_bits=None):
         self.name = name            # unique job id
         self.cfile = cfile
         self.entry = entry
@@ -37,6 +37,7 @@ class Job:
         self.nloops = nloops        # expected number of loops under contract (presence scan)
         self.solver = solver
         self.must_have = list(must_have)
+        self.object_bits = object_bits   # None = CBMC default (8); larger values slow array-heavy proofs down a lot (measured: 15 s vs > 120 s)
         self.twin = twin            # run the vacuity twin (families of case-split jobs keep one twin per sub-family)  # substrings of obligation descriptions that must exist
 
 
@@ -123,7 +124,7 @@ def run_job(job, workdir, vacuity=False, trace=True):
             res['reason'] = 'goto-instrument failed: ' + (err or out)[-600:]
             return res
         binary = b
-    cmd = ['cbmc', binary, '--json-ui', '--object-bits', '12', '--drop-unused-functions']
+    cmd = ['cbmc', binary, '--json-ui', '--drop-unused-functions'] + (['--object-bits', str(job.object_bits)] if job.object_bits else [])
     if not vacuity:
         cmd += job.checks
         if trace:
